@@ -104,7 +104,9 @@ type RecCache struct {
 	rec   *Recorder
 }
 
-func NewRecCache(inner cache.Cache, rec *Recorder) *RecCache { return &RecCache{Inner: inner, rec: rec} }
+func NewRecCache(inner cache.Cache, rec *Recorder) *RecCache {
+	return &RecCache{Inner: inner, rec: rec}
+}
 
 // Use switches the recorder (assembled-service cases share one cache per app).
 func (c *RecCache) Use(rec *Recorder) {
